@@ -222,6 +222,9 @@ func init() {
 				if i%6 == 5 {
 					prog = g.unboundedThenBoundedProgram()
 					c.count("directed:unboundedThenBounded")
+				} else if i%6 == 2 {
+					prog = g.worldBalanceProgram()
+					c.count("directed:worldBalance")
 				} else {
 					prog = g.Program()
 				}
